@@ -1,4 +1,4 @@
--- Recorded by tools/snap_accept.sh from /repo at eeb7701: the digests of the statements the models were written against
+-- Recorded by tools/snap_accept.sh from /repo at 220818d: the digests of the statements the models were written against
 namespace Emerge.Ref.SrcSnap
 
 def digest_C01 : Nat := 0x93e9b3c64391f96f3683de11fbd96709
@@ -22,7 +22,7 @@ def count_C06 : Nat := 16
 def digest_C07 : Nat := 0x023e4ff44167f58fcd340d3b153ef671
 def count_C07 : Nat := 19
 
-def digest_C08 : Nat := 0xc0fb82406af234f71e1d37b033aaf991
+def digest_C08 : Nat := 0x8db6edf0ebbe0f6163c8900d817ea9b7
 def count_C08 : Nat := 20
 
 def digest_C09 : Nat := 0xe047d84d5813a0ce9a58ce3d0bff9055
@@ -55,7 +55,7 @@ def count_C17 : Nat := 15
 def digest_C18 : Nat := 0xf458a7b7da143ebac954bb4c25dd6188
 def count_C18 : Nat := 9
 
-def digest_C19 : Nat := 0xd1838ae7082b9b05fc38bc035c5dae49
+def digest_C19 : Nat := 0x174cb34dd963459e5df5f7cb80274cb4
 def count_C19 : Nat := 8
 
 def digest_C20 : Nat := 0x1a1f0d2ee15a8d9b4b28c9fe5e33d128
